@@ -188,6 +188,19 @@ theorem exEnv_chooseGeom : ChooseGeom exEnv where
     · decide
     · split <;> decide
 
+/-- in the three example histories every `_ask_best_point` chose a point without a value -/
+theorem exOps_askNew : AskNew exEnv exOps := askNew_of_check exEnv exOps rfl
+theorem exOps0_askNew : AskNew exEnv exOps0 := askNew_of_check exEnv exOps0 rfl
+theorem exOps2_askNew : AskNew exEnv exOps2 := askNew_of_check exEnv exOps2 rfl
+
+/-- in the state after the four `tell`s the point `_ask_best_point` chooses (4) has no value -/
+theorem exNew0 {s : State Int} (h : run exEnv (init exEnv) exOps0 = .ok s) : ChooseNewAt exEnv s := by
+  obtain ⟨s0, h0, hp⟩ : ∃ s0, run exEnv (init exEnv) exOps0 = .ok s0 ∧ chooseNewB exEnv s0 = true := ⟨_, rfl, rfl⟩
+  rw [h] at h0
+  simp only [Except.ok.injEq] at h0
+  subst h0
+  exact chooseNewB_sound exEnv s hp
+
 theorem le_sum_of_mem_nat {l : List Nat} {x : Nat} (h : x ∈ l) : x ≤ l.sum := by
   induction l with
   | nil => exact absurd h (by simp)
@@ -252,5 +265,82 @@ theorem exFresh : ∃ s, run exEnv (init exEnv) exOps0 = .ok s ∧ ChooseFresh e
   have hx' : x = [0, 1, 2] ∨ x = [1, 2, 3] := by simpa [exEnv] using hx
   have hp' : p = 0 ∨ p = 1 ∨ p = 2 ∨ p = 3 := by simpa using hpm
   rcases hx' with rfl | rfl <;> rcases hp' with rfl | rfl | rfl | rfl <;> exact absurd hpis (by decide)
+
+
+/-! ### why the completeness of the queue needs `AskNew` since the repair of `tell_pending`
+
+A segment `[0,1]` (dimension 1) whose oracle `choose_point_in_simplex` returns the first corner.  The oracles satisfy
+`TriGeom`, `SubGeom` and `ChooseGeom` (`point_in_simplex` accepts everything, there are no sub-triangulations to be
+untruthful about).  After the two corners are told, `ask(1)` pops the only queue entry, chooses the point 0 — which has
+a value — and `tell_pending(0)` is a no-op: the simplex stays live, without sub-triangulation and without a queue
+entry. -/
+def cxEnv : Env Int where
+  dim := 1
+  boundsPts := [0, 1]
+  inside _ := true
+  one := 1
+  inf := 1000000
+  c15 := 0
+  c2 := 1
+  factor := 1
+  abs x := if x < 0 then -x else x
+  isZero x := x == 0
+  rnd x := x
+  lossFn _ _ := 1
+  vol _ := 1
+  pis _ _ := true
+  choose pts := pts.headD 0
+  triInit n := n == 2
+  triSimps n := if n = 2 then [[0, 1]] else []
+  triAdd _ _ := none
+  locate _ _ := []
+  uord _ := []
+  subSimps _ := []
+  subAdd _ _ := none
+  randPt _ := 9
+
+def cxOps : List (Op Int) := [.tell 0 1 1, .tell 1 2 2, .ask 1 true]
+
+theorem cxEnv_triGeom : TriGeom cxEnv where
+  report := by intro n h D A hadd; simp [cxEnv] at hadd
+  idx := by
+    intro n x hx i hi
+    simp only [cxEnv] at hx
+    split at hx
+    · rename_i h2; subst h2
+      simp only [List.mem_cons, List.not_mem_nil, or_false] at hx; subst hx
+      simp only [List.mem_cons, List.not_mem_nil, or_false] at hi
+      omega
+    · exact absurd hx (by simp)
+  fresh := by intro n h D A hadd; simp [cxEnv] at hadd
+
+theorem cxEnv_subGeom : SubGeom cxEnv where
+  subReport := by intro sv p D A hadd; simp [cxEnv] at hadd
+  fresh := by intro sv p D A _ hadd; simp [cxEnv] at hadd
+  size := by
+    intro n sx hsx
+    simp only [cxEnv] at hsx ⊢
+    split at hsx
+    · simp only [List.mem_singleton] at hsx; subst hsx; rfl
+    · exact absurd hsx (by simp)
+
+theorem cxEnv_chooseGeom : ChooseGeom cxEnv where
+  inside := fun _ => rfl
+  inSimplex := fun _ => rfl
+  inOwner := by intro sv ss hss; simp [cxEnv] at hss
+  split := by intro sv ss hss; simp [cxEnv] at hss
+  nodup := by
+    intro n
+    simp only [cxEnv]
+    split <;> decide
+
+/-- the run succeeds (`ask` returns the evaluated point 0), and afterwards the only simplex is live, has no
+sub-triangulation and no queue entry; the ghost flag is `false` -/
+theorem cxRun : ∃ s rs s1, run cxEnv (init cxEnv) [.tell 0 1 1, .tell 1 2 2] = .ok s1 ∧
+    ask cxEnv s1 1 true = .ok (rs, s) ∧ rs.map (·.1) = [0] ∧ s1.data = [0, 1] ∧
+    run cxEnv (init cxEnv) cxOps = .ok s ∧ s.tri = some [0, 1] ∧ s.pending = [] ∧
+    [0, 1] ∈ cxEnv.triSimps 2 ∧ get? [0, 1] s.book.subs = none ∧ s.book.queue.length = 0 ∧
+    s.book.geomOK = false :=
+  ⟨_, _, _, rfl, rfl, rfl, rfl, rfl, rfl, rfl, by decide, rfl, rfl, rfl⟩
 
 end LND
